@@ -920,6 +920,129 @@ async fn resp_overlap_holder(rq: Rq) -> Result<HttpResponseOk<OverlapHolder>, Ht
 body_ep!(body_overlap_holder, POST, "/zoo/body/untagged-overlap", OverlapHolder, "body-enum-overlap");
 body_ep!(body_overlap_structs, PUT, "/zoo/body/untagged-overlap/structs", OverlapStructs, "body-enum-overlap");
 
+
+// ---------------------------------------------------------------------------
+// endpoints: two DIFFERENT custom error types with the SAME Rust name
+// ---------------------------------------------------------------------------
+//
+// `errs_a::ApiError` and `errs_b::ApiError` have incompatible bodies.  Each is
+// the error type of its own operations; framework errors on those operations
+// (missing parameter, malformed body) must match the error schema documented
+// for *that* operation.
+
+pub mod errs_a {
+    use super::*;
+    #[derive(Debug, Serialize, JsonSchema)]
+    pub struct ApiError {
+        pub message: String,
+        pub code: u16,
+        #[serde(skip)]
+        pub status: ErrorStatusCode,
+    }
+    impl std::fmt::Display for ApiError {
+        fn fmt(&self, f: &mut std::fmt::Formatter<'_>) -> std::fmt::Result {
+            f.write_str(&self.message)
+        }
+    }
+    impl From<HttpError> for ApiError {
+        fn from(e: HttpError) -> Self {
+            ApiError { code: e.status_code.as_u16(), message: e.external_message, status: e.status_code }
+        }
+    }
+    impl HttpResponseError for ApiError {
+        fn status_code(&self) -> ErrorStatusCode {
+            self.status
+        }
+    }
+}
+pub mod errs_b {
+    use super::*;
+    #[derive(Debug, Serialize, JsonSchema)]
+    pub enum Origin {
+        Framework,
+        Handler,
+    }
+    #[derive(Debug, Serialize, JsonSchema)]
+    #[serde(deny_unknown_fields)]
+    pub struct ApiError {
+        pub detail: String,
+        pub origin: Origin,
+        pub retryable: bool,
+        #[serde(skip)]
+        pub status: ErrorStatusCode,
+    }
+    impl std::fmt::Display for ApiError {
+        fn fmt(&self, f: &mut std::fmt::Formatter<'_>) -> std::fmt::Result {
+            f.write_str(&self.detail)
+        }
+    }
+    impl From<HttpError> for ApiError {
+        fn from(e: HttpError) -> Self {
+            ApiError {
+                detail: e.external_message,
+                origin: Origin::Framework,
+                retryable: e.status_code.as_u16() >= 500,
+                status: e.status_code,
+            }
+        }
+    }
+    impl HttpResponseError for ApiError {
+        fn status_code(&self) -> ErrorStatusCode {
+            self.status
+        }
+    }
+}
+
+#[endpoint { method = POST, path = "/zoo/err/same-name/a", tags = ["custom-error-same-name"] }]
+async fn err_same_name_a(rq: Rq, _q: Query<QSmall>, _b: TypedBody<Plain>) -> Result<HttpResponseOk<Plain>, errs_a::ApiError> {
+    let mut r = rng_of(&rq);
+    Ok(HttpResponseOk(Plain::arb(&mut r, 0)))
+}
+#[endpoint { method = GET, path = "/zoo/err/same-name/a/{id}", tags = ["custom-error-same-name"] }]
+async fn err_same_name_a_get(rq: Rq, _p: Path<PId>, _q: Query<QSmall>) -> Result<HttpResponseOk<Plain>, errs_a::ApiError> {
+    let mut r = rng_of(&rq);
+    Ok(HttpResponseOk(Plain::arb(&mut r, 0)))
+}
+#[endpoint { method = POST, path = "/zoo/err/same-name/b", tags = ["custom-error-same-name"] }]
+async fn err_same_name_b(rq: Rq, _q: Query<QSmall>, _b: TypedBody<Plain>) -> Result<HttpResponseOk<Plain>, errs_b::ApiError> {
+    let mut r = rng_of(&rq);
+    Ok(HttpResponseOk(Plain::arb(&mut r, 0)))
+}
+#[endpoint { method = GET, path = "/zoo/err/same-name/b/{id}", tags = ["custom-error-same-name"] }]
+async fn err_same_name_b_get(rq: Rq, _p: Path<PId>, _q: Query<QSmall>) -> Result<HttpResponseOk<Plain>, errs_b::ApiError> {
+    let mut r = rng_of(&rq);
+    Ok(HttpResponseOk(Plain::arb(&mut r, 0)))
+}
+
+// ---------------------------------------------------------------------------
+// endpoints: optional named types NESTED inside inline containers
+// ---------------------------------------------------------------------------
+
+#[endpoint { method = GET, path = "/zoo/resp/vec-of-option", tags = ["response-nested-option"] }]
+async fn resp_vec_of_option(rq: Rq) -> Result<HttpResponseOk<Vec<Option<Plain>>>, HttpError> {
+    let mut r = rng_of(&rq);
+    // always at least one element, and a real None in most answers
+    let mut v: Vec<Option<Plain>> = Arb::arb(&mut r, 0);
+    v.push(if r.chance(2, 3) { None } else { Some(Plain::arb(&mut r, 0)) });
+    Ok(HttpResponseOk(v))
+}
+#[endpoint { method = GET, path = "/zoo/resp/map-of-option", tags = ["response-nested-option"] }]
+async fn resp_map_of_option(rq: Rq) -> Result<HttpResponseOk<BTreeMap<String, Option<Plain>>>, HttpError> {
+    let mut r = rng_of(&rq);
+    let mut m: BTreeMap<String, Option<Plain>> = Arb::arb(&mut r, 0);
+    m.insert("always".to_string(), if r.chance(2, 3) { None } else { Some(Plain::arb(&mut r, 0)) });
+    Ok(HttpResponseOk(m))
+}
+#[endpoint { method = GET, path = "/zoo/resp/vec-of-option-enum", tags = ["response-nested-option"] }]
+async fn resp_vec_of_option_enum(rq: Rq) -> Result<HttpResponseCreated<Vec<Option<UnitEnum>>>, HttpError> {
+    let mut r = rng_of(&rq);
+    let mut v: Vec<Option<UnitEnum>> = Arb::arb(&mut r, 0);
+    v.push(None);
+    Ok(HttpResponseCreated(v))
+}
+body_ep!(body_vec_of_option, POST, "/zoo/body/vec-of-option", Vec<Option<Plain>>, "body-nested-option");
+body_ep!(body_map_of_option, PUT, "/zoo/body/map-of-option", BTreeMap<String, Option<Plain>>, "body-nested-option");
+
 // ---------------------------------------------------------------------------
 
 pub fn api() -> ApiDescription<ZooCtx> {
@@ -939,7 +1062,9 @@ pub fn api() -> ApiDescription<ZooCtx> {
         resp_ranged, resp_scalar, resp_unit, resp_option, resp_option_inline, page_items,
         err_struct, err_enum, err_serialize_struct, err_serialize_enum, err_bad_header_struct,
         err_bad_header_enum, resp_overlap_structs, resp_overlap_nums, resp_overlap_holder,
-        body_overlap_holder, body_overlap_structs,
+        body_overlap_holder, body_overlap_structs, err_same_name_a, err_same_name_a_get,
+        err_same_name_b, err_same_name_b_get, resp_vec_of_option, resp_map_of_option,
+        resp_vec_of_option_enum, body_vec_of_option, body_map_of_option,
     );
     api
 }
